@@ -841,8 +841,8 @@ func commodityPathsVisitedDepth(p *Prog, fd *ast.FuncDecl, depth int) map[string
 							if pt, ok := t.(*types.Pointer); ok {
 								t = pt.Elem()
 							}
-							if strings.HasSuffix(types.TypeString(t, nil), "/ast.Posting") {
-								takesPosting = true
+							if strings.HasSuffix(types.TypeString(t, nil), "/ast.Posting") || typeReaches(t, "/ast.Posting", map[types.Type]bool{}) {
+								takesPosting = true // the posting itself, or a container of postings (transaction, journal, slices of them)
 							}
 						}
 					}
